@@ -77,6 +77,7 @@ def run(spec):
     return {'viol': [], 'nt': False, 'cls': ['degenerate'], 'dc': 1}
   det = {'n_pre': fs['n_pre'], 'n_an': n_an, 'level': spec['level'], 'tails': spec['tails'], 'rescale': spec['rescale'],
          'cooldown': spec['use_cooldown']}
+  df_before = df.copy(deep=True)
   try:
     if spec.get('refit'):
       # 'refit' flavour: the model object has already analysed another frame (other totals, other shape) and been queried
@@ -90,6 +91,8 @@ def run(spec):
       cls.append('refit')
     else:
       m = fit_tbr(df, kwargs, target, spec['use_cooldown'])
+    if not df.equals(df_before):
+      viol.append(('C06:input-frame-modified', det))
     dist = m.causal_cumulative_distribution()
     loc = np.asarray(dist.kwds['loc'], float)
     sc = np.asarray(dist.kwds['scale'], float)
@@ -136,6 +139,20 @@ def run(spec):
             viol.append(('C06:precision-identity', det))
         if spec['tails'] == 1 and not np.isinf(s['upper'].values).all():
           viol.append(('C06:upper-not-inf', det))
+      # documented defaults: summary() == summary(level=0.9, threshold=0.0, tails=1, report='last', rescale=1.0); TBR() uses the cooldown
+      if spec['time'] % 3 == 0:
+        from matched_markets.methodology import tbr as tbr_mod
+        s_def = m.summary()
+        s_exp = m.summary(level=0.9, threshold=0.0, tails=1, report='last', rescale=1.0)
+        if not (list(s_def.columns) == list(s_exp.columns) and util.deep_eq(s_def.values.astype(float), s_exp.values.astype(float), 1e-12)):
+          viol.append(('C06:summary-defaults', det))
+        m_def = tbr_mod.TBR()
+        m_def.fit(df, target, **kwargs)
+        d_def = m_def.causal_cumulative_distribution()
+        pre_c, an_c = frames.masks(truth, True)
+        if int(an_c.sum()) != len(np.atleast_1d(d_def.kwds['loc'])):
+          viol.append(('C06:use-cooldown-default', dict(det, got=len(np.atleast_1d(d_def.kwds['loc'])), want=int(an_c.sum()))))
+        cls.append('defaults-checked')
       # metamorphic: same totals presented differently
       df2, kw2, _ = frames.materialise(fs, drop_unassigned=True, permute=False, split_first_treatment=True)
       m2 = fit_tbr(df2, kw2, target, spec['use_cooldown'])
